@@ -92,6 +92,15 @@ def run_execute(execute, desc):
         return Res('violation', key=v.key, msg=v.msg)
     except Reject as r:
         return Res('rejected', msg=r.reason, labels=['rejected:' + r.reason])
+    except (AssertionError, IndexError, KeyError, ValueError, TypeError, AttributeError, ZeroDivisionError, UnboundLocalError, NameError) as e:
+        # a crash whose innermost frame lies inside the package under test (and not in hypothesis / the harness) is a violation of
+        # "handled or rejected cleanly"; anything else is a harness error and propagates
+        tb = traceback.extract_tb(e.__traceback__)
+        inner = tb[-1] if tb else None
+        if inner is not None and '/yastn/' in inner.filename.replace('\\', '/') and '/verif/' not in inner.filename:
+            return Res('violation', key=f'crash:{type(e).__name__}:{os.path.basename(inner.filename)}:{inner.name}',
+                       msg=f'{type(e).__name__}: {str(e)[:200]} at {os.path.basename(inner.filename)}:{inner.lineno} ({inner.name})')
+        raise
 
 
 def record(res, desc, r, known_keys, want_samples=4):
